@@ -4,6 +4,7 @@ package main
 
 import (
 	"go/ast"
+	"go/token"
 	"go/types"
 	"strings"
 
@@ -229,6 +230,40 @@ func runPRD(c *Ctx, s *Sink) {
 			}
 			return true
 		})
+		// read all, remove all, then write all: a new name may be the old name of another renaming
+		var lastGet, firstDel, lastDel, firstSet token.Pos
+		ast.Inspect(fd.Body, func(n ast.Node) bool {
+			if call, isC := n.(*ast.CallExpr); isC {
+				if f := callee(info, call); f != nil {
+					switch f.Name() {
+					case "GetAttribute":
+						if call.Pos() > lastGet {
+							lastGet = call.Pos()
+						}
+					case "DeleteAttribute":
+						if !firstDel.IsValid() {
+							firstDel = call.Pos()
+						}
+						if call.Pos() > lastDel {
+							lastDel = call.Pos()
+						}
+					case "SetAttribute":
+						if !firstSet.IsValid() {
+							firstSet = call.Pos()
+						}
+					}
+				}
+			}
+			return true
+		})
+		if !bad && firstSet.IsValid() && lastDel.IsValid() && firstSet < lastDel {
+			s.Fail(nil, key, firstSet, "the new names are written before the old names are removed: when a new name is the old name of another renaming (-R kk=k -R k=count, -R forward=reverse -R reverse=forward) the attribute just written is deleted — {k:5,kk:1} comes out as {kk:1}")
+			return
+		}
+		if !bad && lastGet.IsValid() && (firstDel.IsValid() && firstDel < lastGet || firstSet.IsValid() && firstSet < lastGet) {
+			s.Fail(nil, key, lastGet, "an attribute is removed or written before all the old values are read: a chained renaming reads the value another one has just written or finds nothing")
+			return
+		}
 		if bad {
 			s.Fail(nil, key, fd.Pos(), "the renamings are applied one after the other (in the alphabetical order of the new names): when a new name is the old name of another renaming the result depends on their spelling — -R kk=k -R k=count gives kk=<count> and loses the value of k; -R a=k -R k=count, the same request, gives a=<k>, k=<count>")
 		} else {
